@@ -108,6 +108,50 @@ Theorem C03_mufidelity_batch_invariant :
 Proof. exact C15.Proofs.mufid_batch_invariant. Qed.
 Print Assumptions C03_mufidelity_batch_invariant.
 
+
+(* ---- selecting inputs selects explanations: Saliency, GradientInput, Integrated Gradients, Sobol / HSIC ---- *)
+Theorem C03_saliency_selection :
+  forall (grad : list Qc -> list Qc -> list Qc) k r bs bs' xs ts idx dx dt,
+    C01.Spec.shape_preserving grad -> C01.Spec.kind_ok k -> C06.Proofs.bs_ok bs -> C06.Proofs.bs_ok bs' ->
+    (forall x, In x xs -> length x = C01.Model.kind_size k) -> length dx = C01.Model.kind_size k ->
+    (forall i, In i idx -> (i < length xs)%nat /\ (i < length ts)%nat) ->
+    C01.Model.saliency grad k r bs (C03.Proofs.select idx xs dx) (C03.Proofs.select idx ts dt)
+    = C03.Proofs.select idx (C01.Model.saliency grad k r bs' xs ts)
+                        (C01.Spec.spec_reduce k r (C01.Spec.spec_saliency grad dx dt)).
+Proof. exact C03.Proofs.saliency_select. Qed.
+Print Assumptions C03_saliency_selection.
+
+Theorem C03_gradient_input_selection :
+  forall (grad : list Qc -> list Qc -> list Qc) k r bs bs' xs ts idx dx dt,
+    C01.Spec.shape_preserving grad -> C01.Spec.kind_ok k -> C06.Proofs.bs_ok bs -> C06.Proofs.bs_ok bs' ->
+    (forall x, In x xs -> length x = C01.Model.kind_size k) ->
+    (forall i, In i idx -> (i < length xs)%nat /\ (i < length ts)%nat) ->
+    C01.Model.gradient_input grad k r bs (C03.Proofs.select idx xs dx) (C03.Proofs.select idx ts dt)
+    = C03.Proofs.select idx (C01.Model.gradient_input grad k r bs' xs ts)
+                        (C01.Spec.spec_reduce k r (C01.Spec.spec_gradient_input grad dx dt)).
+Proof. exact C03.Proofs.gradient_input_select. Qed.
+Print Assumptions C03_gradient_input_selection.
+
+Theorem C03_integrated_gradients_selection :
+  forall (grad : list Qc -> list Qc -> list Qc) n m bs bs' bv xs ts idx dx dt,
+    C04.Spec.bs_ok bs -> C04.Spec.bs_ok bs' -> (2 <= m)%nat -> xs <> [] -> idx <> [] ->
+    (forall x, In x xs -> length x = n) -> C04.Spec.grad_shape n grad ->
+    (forall i, In i idx -> (i < length xs)%nat /\ (i < length ts)%nat) ->
+    C04.Model.ig grad n m bs bv (C03.Proofs.select idx xs dx) (C03.Proofs.select idx ts dt)
+    = C03.Proofs.select idx (C04.Model.ig grad n m bs' bv xs ts) (C04.Spec.spec_ig_one grad n m bv dx dt).
+Proof. exact C03.Proofs.ig_select. Qed.
+Print Assumptions C03_integrated_gradients_selection.
+
+Theorem C03_gsa_selection :
+  forall (score : list Qc -> list Qc -> Qc) (est : list Qc -> list Qc) pf g H W C bs bs' masks xs ts idx dx dt,
+    C08.Spec.bs_valid bs -> C08.Spec.bs_valid bs' ->
+    (forall i, In i idx -> (i < length xs)%nat /\ (i < length ts)%nat) ->
+    C08.Model.gsa_explain score est pf g H W C bs masks (C03.Proofs.select idx xs dx) (C03.Proofs.select idx ts dt)
+    = C03.Proofs.select idx (C08.Model.gsa_explain score est pf g H W C bs' masks xs ts)
+                        (est (C08.Spec.perturbed_scores score (pf dx) g H W C masks dx dt)).
+Proof. exact C03.Proofs.gsa_select. Qed.
+Print Assumptions C03_gsa_selection.
+
 Close Scope Qc_scope. Open Scope nat_scope.
 Example C03_nonvacuous :
   C06.Proofs.bs_ok (@Some nat 3) /\ C06.Proofs.bs_ok (@None nat) /\
